@@ -1626,6 +1626,15 @@ class Folder:
                 if isinstance(v, list) and not any(isinstance(x, list) for x in v):
                     idx = [i for i, t in enumerate(v) if t]
                     return PySeq([idx]) if (short == "where" or as_tuple) else [[i] for i in idx]
+                if isinstance(v, list) and not isinstance(v, PySeq) and v:
+                    # any rank: the index tuples of the non-zero entries in row-major order
+                    import itertools as _it
+
+                    shp_ = _regular(v)
+                    hits_ = [list(ix_) for ix_ in _it.product(*[range(n_) for n_ in shp_]) if _at(v, ix_)]
+                    if short == "where" or as_tuple:
+                        return PyTuple([[h_[a_] for h_ in hits_] for a_ in range(len(shp_))])
+                    return hits_ if hits_ else []
                 raise Unfoldable(f"{short} of a matrix")
             if nm == "sum" and 1 <= len(node.args) <= 2 and not node.keywords and isinstance(self._peek(node.args[0]), PySeq):
                 # the builtin over a python sequence (of numbers or of model objects): left fold with +
